@@ -61,3 +61,24 @@ func vhC31IPv4RoundTrip() {
 	got, err := ParseIPv4(nil, s)
 	vAssert("ipv4-roundtrip", err == nil && len(got) == 4 && got[0] == a[0] && got[1] == a[1] && got[2] == a[2] && got[3] == a[3])
 }
+
+// vhC31Octet: parseIPv4Octet on every byte string of length 0..4: accepted iff
+// non-empty, all digits, value ≤ 255 — with exactly that value.
+func vhC31Octet() {
+	n := vLen("n", 0, 4)
+	b := vBytes("b", n)
+	got, _, err := parseIPv4Octet(b)
+	ok := n > 0
+	val := 0
+	for _, c := range b {
+		if c < '0' || c > '9' {
+			ok = false
+		}
+		val = val*10 + int(c-'0')
+	}
+	if val > 255 {
+		ok = false
+	}
+	vAssert("octet-accept-iff-spec", (err == nil) == ok)
+	vAssert("octet-value", err != nil || int(got) == val)
+}
